@@ -59,18 +59,17 @@ def resolveExcl (ix : List Def) (imp : Path → String → Bool) (f : Path) (n :
     Option Def :=
   resolveF ix imp f n (fun d => d != ex)
 
-/-- `get_fixture_definition_at_line`: first definition at `(file, line)`.  The implementation
-    iterates a hash map; the model uses registration order — the two agree whenever at most one
-    fixture *name* is defined at a given `(file, line)` (`OneNamePerLine`, see Props/C08). -/
-def defAtLine (ix : List Def) (f : Path) (line : Nat) : Option Def :=
-  ix.find? (fun d => d.file == f && d.line == line)
+/-- `get_enclosing_definition_named`: the first definition named `n` in file `f` whose function
+    spans `line` — signature lines included, so a parameter on a later line of a wrapped signature
+    is found too (since the E8 repair; before: the definition whose `def` line is `line`). -/
+def ownDefAt (ix : List Def) (f : Path) (line : Nat) (n : String) : Option Def :=
+  (defsOf ix n).find? (fun d => d.file == f && d.line ≤ line && line ≤ d.endLine)
 
-/-- How one recorded usage is resolved by navigation, references and the CLI alike:
-    a usage on the line of a same-named definition resolves *outward* (that definition excluded). -/
+/-- How one recorded usage is resolved by navigation, references and the CLI alike: a usage of a
+    fixture's own name inside that fixture's lines resolves *outward* (that definition excluded). -/
 def resolveUsage (ix : List Def) (imp : Path → String → Bool) (u : Usage) : Option Def :=
-  match defAtLine ix u.file u.line with
-  | some c => if c.name == u.name then resolveExcl ix imp u.file u.name c
-              else resolve ix imp u.file u.name
+  match ownDefAt ix u.file u.line u.name with
+  | some c => resolveExcl ix imp u.file u.name c
   | none => resolve ix imp u.file u.name
 
 /-- The usage of `f` selected by a cursor (`find_fixture_definition`'s loop): first usage on the
@@ -190,16 +189,24 @@ def isAvailableFixture (ix : List Def) (f : Path) (n : String) : Bool :=
 /-! ### scope mismatches (`detect_scope_mismatches_in_file`) -/
 
 /-- for every fixture *name* defined in `f` (via `file_definitions[f]`), the first definition of
-    that name in `f`, each dependency looked up as `definitions[dep].first()`. -/
-def mismatchesIn (ix : List Def) (fileDefNames : List String) (f : Path) : List (Def × Def) :=
+    that name in `f`; each dependency is the definition `res` selects for it (since the E14
+    repair: resolution from the fixture's file, see `scopeRes`; before: `definitions[dep].first()`). -/
+def mismatchesIn (ix : List Def) (res : Def → String → Option Def) (fileDefNames : List String) (f : Path) :
+    List (Def × Def) :=
   fileDefNames.flatMap (fun n =>
     match (defsOf ix n).find? (fun d => d.file == f) with
     | none => []
     | some fd =>
       fd.deps.filterMap (fun dep =>
-        match (defsOf ix dep).head? with
+        match res fd dep with
         | none => none
         | some dd => if dd.scope < fd.scope then some (fd, dd) else none))
+
+/-- the definition the scope check compares fixture `fd` (in file `f`) with for its dependency
+    `dep`: what `find_closest_definition` selects from `f` — for the fixture's own name, the
+    definition it overrides (`find_closest_definition_excluding`). -/
+def scopeRes (ix : List Def) (imp : Path → String → Bool) (f : Path) (fd : Def) (dep : String) : Option Def :=
+  if dep == fd.name then resolveExcl ix imp f dep fd else resolve ix imp f dep
 
 /-! ### CLI: `compute_definition_usage_counts`, `get_unused_fixtures` -/
 
@@ -258,9 +265,8 @@ def resolveFM {σ : Type} (ix : List Def) (impM : String → Path → σ → Boo
 
 def resolveUsageM {σ : Type} (ix : List Def) (impM : String → Path → σ → Bool × σ) (u : Usage)
     (s : σ) : Option Def × σ :=
-  match defAtLine ix u.file u.line with
-  | some c => if c.name == u.name then resolveFM ix impM u.file u.name (fun d => d != c) s
-              else resolveFM ix impM u.file u.name (fun _ => true) s
+  match ownDefAt ix u.file u.line u.name with
+  | some c => resolveFM ix impM u.file u.name (fun d => d != c) s
   | none => resolveFM ix impM u.file u.name (fun _ => true) s
 
 end PLS
